@@ -583,3 +583,159 @@ def _builtin_sigs(repo):
             "def undefBuiltinSigs : List (String × String × List (List String × String) × List String × List String) := [\n  "
             + ",\n  ".join(f"({lean_str(k)}, {lean_str(n)}, [{', '.join(lt(x) for x in t)}], {ls(r)}, {ls(h)})" for k, n, f, t, r, h in rows) + "]")
     return [{"kind": k, "name": n, "fn": f, "types": t, "reach": r, "helpers": h} for k, n, f, t, r, h in rows], lean
+
+
+# ---------------------------------------------------------------------------- every mention of the mode
+MODE_DIRS = ["minijinja/src", "minijinja-contrib/src"]
+PLUMBING_FNS = {"set_undefined_behavior", "undefined_behavior", "new", "empty"}
+
+
+def rs_files(repo):
+    import os
+    out = []
+    for d in MODE_DIRS:
+        for root, _, files in os.walk(os.path.join(repo, d)):
+            for f in sorted(files):
+                if f.endswith(".rs"):
+                    out.append(os.path.relpath(os.path.join(root, f), repo))
+    return sorted(out)
+
+
+def enclosing_fn(src, pos):
+    last = None
+    for m in re.finditer(r"\bfn\s+(\w+)", src[:pos]):
+        last = m.group(1)
+    return last or "-"
+
+
+def block_after(src, i):
+    """text of the `{…}` block starting at the first `{` at or after i"""
+    j = src.find("{", i)
+    if j < 0:
+        return ""
+    depth, e = 0, j
+    while e < len(src):
+        if src[e] == "{":
+            depth += 1
+        elif src[e] == "}":
+            depth -= 1
+            if depth == 0:
+                return src[j:e + 1]
+        e += 1
+    return src[j:]
+
+
+def is_error_block(b):
+    return bool(re.search(r"\bErr\s*\(|\bbail!\s*\(", b))
+
+
+def mode_tests_in(src):
+    """[(start, end, set of modes for which the predicate is true)] of every comparison of a mode"""
+    out = []
+    for m in re.finditer(r"(!?)\s*matches!\(\s*([^,]*?undefined_behavior[^,]*?)\s*,\s*((?:\s*UndefinedBehavior::\w+\s*\|?)+)\s*\)", src, re.S):
+        S = set(parse_modes(m.group(3)))
+        if m.group(1):
+            S = set(MODE.values()) - S
+        out.append((m.start(), m.end(), S))
+    for m in re.finditer(r"[\w\.]*undefined_behavior(?:\s*\(\s*\))?\s*(==|!=)\s*(?:crate::)?UndefinedBehavior::(\w+)", src):
+        S = {MODE[m.group(2)]}
+        if m.group(1) == "!=":
+            S = set(MODE.values()) - S
+        out.append((m.start(), m.end(), S))
+    for m in re.finditer(r"UndefinedBehavior::(\w+)\s*(==|!=)\s*[\w\.]*undefined_behavior(?:\s*\(\s*\))?", src):
+        S = {MODE[m.group(1)]}
+        if m.group(2) == "!=":
+            S = set(MODE.values()) - S
+        out.append((m.start(), m.end(), S))
+    return out
+
+
+@item("C12_MODE_SITES")
+def _mode_sites(repo):
+    """every mention of the undefined behaviour in minijinja/src and minijinja-contrib/src, classed:
+    plumbing (field, setter, getter, default, use/type), alias (`let x = ….undefined_behavior()`),
+    helper:<name> (a call of one of the five helpers), rows (the match rows of the helpers and of
+    Environment::format, covered by their own tables), test (a comparison with variants: which modes
+    take the guarded branch and whether that branch is an error), other (anything else)."""
+    mentions, tests = [], []
+    for rel in rs_files(repo):
+        src = strip_comments(read(repo, rel))
+        if "ndefined" not in src:
+            continue
+        consumed = []          # spans of variant mentions explained by a test / rows
+        for (a, b, S) in mode_tests_in(src):
+            fn = enclosing_fn(src, a)
+            # what does the test guard?
+            line_start = src.rfind(";", 0, a) + 1
+            line_start = max(line_start, src.rfind("{", 0, a) + 1, src.rfind("}", 0, a) + 1)
+            stmt_head = src[line_start:a]
+            action, E = "other", S
+            mlet = re.search(r"\blet\s+(?:mut\s+)?(\w+)\s*=\s*$", stmt_head)
+            if mlet:
+                name = mlet.group(1)
+                fb_start = src.rfind("fn " + fn, 0, a)
+                body = block_after(src, fb_start)
+                uses = [u for u in re.finditer(r"\bif\b([^{;]*\b%s\b[^{;]*)\{" % re.escape(name), body)]
+                other_uses = len(re.findall(r"\b%s\b" % re.escape(name), body)) - 1 - len(uses)
+                if uses and other_uses == 0 and all(is_error_block(block_after(body, u.end() - 1)) for u in uses) \
+                        and not any(re.search(r"!\s*%s\b|\|\|" % re.escape(name), u.group(1)) for u in uses):
+                    action = "error"
+            elif re.search(r"\bif\b[^{;]*$", stmt_head) and "||" not in stmt_head:
+                # the rest of the condition up to the block
+                k = src.find("{", b)
+                cond_rest = src[b:k]
+                if "||" not in cond_rest and is_error_block(block_after(src, b)):
+                    action = "error"
+            tests.append((rel, fn, sorted(E), 0 if action == "error" else 1))
+            consumed.append((a, b))
+        for m in re.finditer(r"undefined_behavior\b(\s*\(\s*\))?|UndefinedBehavior\b(::\w+)?", src):
+            a, b = m.start(), m.end()
+            fn = enclosing_fn(src, a)
+            if any(x <= a < y for x, y in consumed):
+                cls = "test"
+            else:
+                tail = src[b:b + 60]
+                head = src[max(0, a - 80):a]
+                hm = re.match(r"\s*\.\s*(%s)\s*\(" % "|".join(HELPERS), tail)
+                if m.group(0).startswith("undefined_behavior") and (re.search(r"\bfn\s+\w*$", head) or re.search(r"\w$", head)):
+                    cls = "plumbing"    # the name of the accessor / setter being defined
+                elif m.group(0).startswith("undefined_behavior") and re.search(r"\blet\s+(?:mut\s+)?$", head):
+                    cls = "alias"       # the local variable holding the mode
+                elif m.group(0).startswith("undefined_behavior") and hm:
+                    cls = "helper:" + hm.group(1)
+                elif m.group(0).startswith("UndefinedBehavior::") and rel == UTILS and fn in HELPERS:
+                    cls = "rows"
+                elif m.group(0).startswith("UndefinedBehavior::") and rel == ENVRS and fn == "format":
+                    cls = "rows"
+                elif m.group(0).startswith("undefined_behavior") and rel == ENVRS and fn == "format" and re.search(r"match\s*\(\s*self\.\s*$", head):
+                    cls = "rows"
+                elif m.group(0) in ("UndefinedBehavior", "UndefinedBehavior::default"):
+                    cls = "plumbing"
+                elif m.group(0).startswith("undefined_behavior") and re.search(r"\blet\s+(?:mut\s+)?\w+\s*=\s*[\w\.\(\)]*$", head) and re.match(r"\s*;", tail):
+                    cls = "alias"
+                elif m.group(0).startswith("undefined_behavior") and (fn in PLUMBING_FNS or re.match(r"\s*:", tail)):
+                    cls = "plumbing"
+                elif m.group(0).startswith("undefined_behavior") and re.match(r"\s*,", tail) and re.search(r"matches!\(\s*$", head):
+                    cls = "test"        # the subject of a `matches!` split over lines
+                else:
+                    cls = "other"
+            mentions.append((rel, fn, cls))
+    if not any(c.startswith("helper:") for _, _, c in mentions):
+        raise KeyError("no helper calls found")
+    # compress: (file, fn, class) -> count
+    import collections
+    cnt = collections.OrderedDict()
+    for k in mentions:
+        cnt[k] = cnt.get(k, 0) + 1
+    rows = [(f, fn, c, n) for (f, fn, c), n in cnt.items()]
+
+    def nl(xs):
+        return "[" + ", ".join(str(x) for x in xs) + "]"
+    lean = ("/-- every comparison of the mode with variants: (file, fn, modes that take the guarded branch, 0 = that branch is an\n"
+            "    error / 1 = anything else) -/\n"
+            "def undefModeTests : List (String × String × List Nat × Nat) := [\n  "
+            + ",\n  ".join(f"({lean_str(f)}, {lean_str(fn)}, {nl(E)}, {a})" for f, fn, E, a in tests) + "]\n"
+            "/-- every mention of the mode in minijinja/src and minijinja-contrib/src: (file, fn, class, count) -/\n"
+            "def undefModeMentions : List (String × String × String × Nat) := [\n  "
+            + ",\n  ".join(f"({lean_str(f)}, {lean_str(fn)}, {lean_str(c)}, {n})" for f, fn, c, n in rows) + "]")
+    return {"tests": [list(t) for t in tests], "mentions": [list(r) for r in rows]}, lean
